@@ -59,6 +59,22 @@ def _classify(exc):
     return {"e": "raise", "cls": "other", "code": [], "repr": f"{type(exc).__name__}: {exc}"[:200]}
 
 
+def _legal_shape(q, s):
+    """does frame s have the shape (specifier, toggle, multiplexer) of a legitimate response to
+    request q?  Such a stale frame is indistinguishable by protocol and is not a disturbance."""
+    ccs = q[0] >> 5
+    scs = s[0] >> 5
+    if ccs == 1:
+        return scs == 3 and s[1:4] == q[1:4]
+    if ccs == 0:
+        return scs == 1 and (s[0] & 0x10) == (q[0] & 0x10)
+    if ccs == 2:
+        return scs == 2 and s[1:4] == q[1:4]
+    if ccs == 3:
+        return scs == 0 and (s[0] & 0x10) == (q[0] & 0x10)
+    return False
+
+
 def run_case(case: dict) -> dict:
     """case: {cod, od, style, calls:[...], seed}.  Returns {"ev": [...], "od": od}."""
     import logging
@@ -106,7 +122,7 @@ def run_case(case: dict) -> dict:
                 dlv = [bytes([(r[0][0] & 0x1F) | new_cs << 5]) + r[0][1:]]
             elif kind == "mux" and r and (r[0][0] >> 5) in (2, 3):
                 dlv = [r[0][:1] + bytes([r[0][1] ^ 1, r[0][2], r[0][3] ^ f.get("subx", 0)]) + r[0][4:]]
-            elif kind == "stale" and r:
+            elif kind == "stale" and r and not _legal_shape(q, bytes(f["d"])):
                 dlv = [bytes(f["d"])] + list(r)
             else:
                 applied = False
